@@ -100,6 +100,15 @@ func ZZ_C07_check() {
 	// arbitrary decoded bytes: accepted iff >= 5 bytes and the last four are the checksum
 	m := vCase("m", 0, vParam("maxdecoded", 8))
 	raw := vBytes("raw", m)
+	if m >= 4 {
+		// last four bytes = (true checksum of the rest) XOR (arbitrary delta): still every byte
+		// string, and a model replays natively with the real double-SHA256 and the same delta
+		delta := vBytes("ckdelta", 4)
+		ck := zzDsha(raw[:m-4])[:4]
+		for i := 0; i < 4; i++ {
+			raw[m-4+i] = ck[i] ^ delta[i]
+		}
+	}
 	if vSymbolic() {
 		zzDecoded = raw
 		s = "<base58>"
